@@ -260,7 +260,7 @@ func reloadMain(args mon.Args) {
 	}
 	run.Set("redefinitions_sent_while_the_collector_was_starting", redefs)
 	run.Set("collector_starts_on_large_cache_files", rounds)
-	run.SetRule("end-to-end tier of "+args.Prop+": the real binary is started on library-built cache files of 6 000 / 20 000 / 40 000 templates per protocol; the moment its UDP sockets exist 30 exporters per protocol re-announce their template with a different definition; once a file-only template decodes (the start-up load is complete) data encoded under the new definitions is sent and every message at the sink must equal its stand-alone decode under the NEW definition. distinct = cache size")
+	run.SetRule("end-to-end tier of " + args.Prop + ": the real binary is started on library-built cache files of 6 000 / 20 000 / 40 000 templates per protocol; the moment its UDP sockets exist 30 exporters per protocol re-announce their template with a different definition; once a file-only template decodes (the start-up load is complete) data encoded under the new definitions is sent and every message at the sink must equal its stand-alone decode under the NEW definition. distinct = cache size")
 	run.Assume("whether the load happens before or concurrently with the first datagrams is the collector's business; only the outcome after both have completed is judged")
 	run.Finish()
 }
